@@ -249,7 +249,17 @@ func c04(args []string) int {
 	alphaD2 := strings.Fields("CL KILL START NEW RMMETA CC CO W1 W3 CK:PASSIVE CK:TRUNCATE SW")
 	alphaSwap := strings.Fields("SAVEDB W1 SW CL NEW START SWAPDB W3")
 	alphaWideD := strings.Fields("CL KILL START NEW RSET RMMETA SAVEDB SWAPDB CC CO W1 W3 WN:9 CK:PASSIVE CK:FULL CK:RESTART CK:TRUNCATE S SW LC:TRUNCATE")
+	// Minimal histories of the defects this check found and that were repaired (F1, F3, F3b, F2, F17, F18): each is
+	// re-run first, alone and extended by one operation, so that a change which re-opens one of them is reported
+	// whatever the time budget cuts later.
+	fixed := seeds("W3 SW CL W1 CK:TRUNCATE START", "W3 SW RSET W1", "W3 SW W3 LC:TRUNCATE RSET", "W3 SW U S LC:TRUNCATE RSET",
+		"W3 SW CL W3 CK:RESTART W1 NEW", "W3 SW SAVEDB W1 CL SWAPDB START W1",
+		"W1 W1 W1 W1 W1 W1 W1 W1 W1 W1 W1 W1 SW CL CK:RESTART U CK:RESTART W3 NEW")
 	layers := []Layer{
+		{Name: "regression/fixed-findings", Cfg: base, Alphabet: strings.Fields("W1 U SW"), Depth: 1, Seeds: fixed},
+		// run-time reset while the replica lags behind local syncs and checkpoints
+		{Name: "seeded/store/reset-lagging-replica", Cfg: base, Alphabet: strings.Fields("RSET W1 U S SW LC:TRUNCATE LC:PASSIVE CK:TRUNCATE"), Depth: d(3, 5),
+			Seeds: seeds("W3 SW U S", "W3 SW U S LC:TRUNCATE", "W3 SW W1 S LC:PASSIVE")},
 		{Name: "exact/store/lifecycle+reset", Cfg: base, Alphabet: alphaD, Depth: d(4, 6), Seeds: seeds("W3 SW", "W3 SW W1"), Filter: g},
 		{Name: "exact/nostore/lifecycle+meta", Cfg: nostore, Alphabet: alphaD2, Depth: d(4, 6), Seeds: seeds("W3 SW", "W3 W3 SW LC:TRUNCATE W1 SW"), Filter: g},
 		{Name: "exact/store/swapdb", Cfg: base, Alphabet: alphaSwap, Depth: d(5, 7), Seeds: seeds("W3 SW"), Filter: g},
